@@ -301,6 +301,27 @@ func boundCandidates(f *ssa.Function) []boundCand {
 			}
 			cv, ok := constOf(iv)
 			if !ok {
+				// x[len(x)-k]: panics unless len(x) >= k
+				if bo, isB := iv.(*ssa.BinOp); isB && bo.Op == token.SUB {
+					if kc, isC := constOf(bo.Y); isC {
+						if lc, isL := bo.X.(*ssa.Call); isL {
+							if bi, isBi := lc.Call.Value.(*ssa.Builtin); isBi && bi.Name() == "len" && len(lc.Call.Args) == 1 && pathOf(lc.Call.Args[0]) == pathOf(xv) {
+								k, _ := constant.Int64Val(constant.ToInt(kc))
+								if k >= 1 {
+									xp := pathOf(xv)
+									construct := fmt.Sprintf("%s[len-%d]", firstN(xp, 50), k)
+									switch {
+									case k == 1 && neverEmptySplit(xv):
+										out = append(out, boundCand{in, construct, true, "strings.Split with a non-empty separator returns at least one element"})
+									default:
+										g := lenAtLeastIP(f, in, xv, k, 0)
+										out = append(out, boundCand{in, construct, g, "dominated by len >= " + fmt.Sprint(k) + " (here or at every call site)"})
+									}
+								}
+							}
+						}
+					}
+				}
 				return
 			}
 			k, _ := constant.Int64Val(constant.ToInt(cv))
@@ -600,4 +621,20 @@ func pathOfOrEmpty(v ssa.Value) string {
 		return ""
 	}
 	return pathOf(v)
+}
+
+// neverEmptySplit: v is the result of strings.Split / SplitN(s, sep[, n != 0]) with a non-empty constant separator,
+// which always has at least one element.
+func neverEmptySplit(v ssa.Value) bool {
+	call, ok := stripConv(v).(*ssa.Call)
+	if !ok {
+		return false
+	}
+	switch calleeName(&call.Call) {
+	case "strings.Split", "strings.SplitAfter", "bytes.Split":
+		if cv, isC := constOf(call.Call.Args[1]); isC && cv.Kind() == constant.String {
+			return constant.StringVal(cv) != ""
+		}
+	}
+	return false
 }
